@@ -14,7 +14,12 @@ C10 — dictionaries use the canonical TON Hashmap encoding; parsers accept ever
     the shape of ShardAccountBlocks / AccountBlock.transactions; optionally after an earlier walk over the same cell that a raising
     callback aborted at its k-th call; and for (b) a value writer that serialises another HashMap (map of maps), twice.
     In (c)/(e) the raw results (value slices) are also printed (describe/look) before they are read.
-Not asserted: order of extras; behaviour on a wholly pruned root; invalid encodings.
+(g) (b)-(e) once more on dictionaries whose tree is 340..450 forks deep (keys of 341..1023 bits that peel off one per level; free
+    label kinds, augmentation with and without references, pruned subtrees hanging off the deep path while the path itself stays):
+    the library is entered from a fresh thread, i.e. from a shallow call stack. The writer and both parsers recurse two frames per
+    level and reach ~490 levels under the default recursion limit; deeper trees (TON allows 1022) are not asked for - an interpreter
+    limit, which the harness does not change.
+Not asserted: order of extras; behaviour on a wholly pruned root; invalid encodings; trees deeper than 450 forks.
 """
 import hashlib
 from collections import Counter
@@ -28,7 +33,9 @@ RULE = ('(a) case = (max_len, len, fill) enumerated exhaustively (quick: max_len
         'prune selectors. non-trivial = (a) len >= 1; (b)-(e) tree with >= 2 label kinds or a non-canonical kind or a pruned '
         'subtree or an augmented tree; distinct = distinct case. (f) case = outer width + key set, inner width + 1-3 inner key sets, '
         'outer / inner kind (aug | plain), where the inner dictionary hangs (x | y | xy), inner entry point 0..2, label-kind choices, '
-        'optional abort index of an earlier walk')
+        'optional abort index of an earlier walk. (g) case = clause (b | c | d | e-plain | e-aug), forks on the longest path (340 / 400 / 450), '
+        'direction of the spine (left / right / zigzag / random), longest label between two forks (0-2 bits), tails of the leaf keys (uniform / '
+        'mixed), key width (d + 1 .. 490 with free label kinds, up to 1023 with canonical ones), label-kind choices, prune selector')
 ASSUMPTIONS = ['refdict.py transcription of dict.cpp append_dict_label(_same) (agrees with the hash pinned in tests/test_hashmap.py)',
                'refcell.py for hashes']
 
@@ -121,7 +128,11 @@ def _pruner(case):
     if not sel:
         return None
 
+    keep = case.get('keep')           # a key (bit string): the edges on the way to it are never pruned
+
     def pr(path):
+        if keep is not None and keep.startswith(path):
+            return 0
         h = hashlib.sha256(f'{path}|{sel}'.encode()).digest()
         return (1 + h[1] % 3) if h[0] % 100 < sel[0] else 0
     return pr
@@ -596,6 +607,138 @@ def classify_nested(case):
     yield 'outer-entries=' + ('1' if len({k % (1 << case['n']) for k, _ in case['pairs']}) == 1 else '2+')
 
 
+
+# -- dictionaries that are hundreds of forks deep --------------------------------------------------------------------------------
+
+def _shallow(fn, *a):
+    """fn(*a) on a thread of its own: the library is entered from a call stack a few frames deep, however deep the harness's own
+    stack is at this point (Hypothesis, replay, a thread pool ...). Exceptions come back with their traceback."""
+    import threading
+    box = []
+
+    def run():
+        try:
+            box.append((True, fn(*a)))
+        except BaseException as e:
+            box.append((False, e))
+    t = threading.Thread(target=run, daemon=True)
+    t.start()
+    t.join()
+    if not box[0][0]:
+        raise box[0][1]
+    return box[0][1]
+
+
+def _deep_keys(d, n, side, gap, tail, seed):
+    """key set (bit strings of length n) whose Patricia tree has a spine of d forks: at each of them one child continues the spine, the
+    other is a leaf (sometimes a fork of two leaves); `gap` = longest label between two forks of the spine, `tail` = how the leaves'
+    keys end (uniform tails make hml_same candidates). The last key is the one at the end of the spine."""
+    stream, blocks = [], [0]
+
+    def nxt(mod):
+        if not stream:
+            blocks[0] += 1
+            stream.extend(hashlib.sha256(f'{d}/{n}/{side}/{gap}/{tail}/{seed}/{blocks[0]}'.encode()).digest())
+        return stream.pop() % mod
+
+    def fill(length, i):
+        if tail == 'zeros':
+            return '0' * length
+        if tail == 'ones':
+            return '1' * length
+        if tail == 'alternate':
+            return ('0' if i % 2 else '1') * length
+        return ''.join('01'[nxt(2)] for _ in range(length))
+    keys = []
+    prefix = ''
+    budget = n - d
+    for i in range(d):
+        li = min(budget, nxt(gap + 1)) if gap else 0
+        budget -= li
+        prefix += ''.join('01'[nxt(2)] for _ in range(li))
+        s = {'left': '0', 'right': '1', 'zigzag': '01'[i % 2]}.get(side) or '01'[nxt(2)]
+        off = prefix + ('1' if s == '0' else '0')
+        t = fill(n - len(off), i)
+        keys.append(off + t)
+        if t and nxt(5) == 0:
+            keys.append(off + t[:-1] + ('1' if t[-1] == '0' else '0'))
+        prefix += s
+    keys.append(prefix + fill(n - len(prefix), d))
+    return keys
+
+
+def _deep_case(case):
+    keys = _deep_keys(case['deep'], case['n'], case['side'], case['gap'], case['tail'], case['seed'])
+    full = {'n': case['n'], 'pairs': [[int(k, 2), (i * 257 + case['seed']) & 0xFFFF] for i, k in enumerate(keys)]}
+    for opt in ('kinds', 'refs', 'kf'):
+        if opt in case:
+            full[opt] = case[opt]
+    if 'prune' in case:
+        full['prune'] = case['prune']
+        full['keep'] = keys[-1]                 # subtrees hanging off the spine are pruned, the spine itself stays as deep as it is
+    return full
+
+
+DEEP_CHECKS = {'b': lambda: check_canonical, 'c': lambda: check_parsers, 'd': lambda: check_aug}
+
+
+def check_deep(case):
+    """(b)-(e) for a dictionary whose tree is hundreds of forks deep (TON allows 1022; the library walks the tree recursively, two
+    Python frames per level in the writer and in both parsers, and gets to ~490 levels under the default recursion limit when it is
+    entered from a shallow stack - depths up to 450 are asked for here). The trees come from the reference builder (free label kinds,
+    augmentation, pruned subtrees hanging off the deep path), the clause checks are the ones of (b)-(e), entered from a fresh thread."""
+    full = _deep_case(case)
+    try:    # the generated tree must exist (no cell overflow), otherwise the clause checks would pass without looking at anything
+        refdict.build(_mapping_r(full) if full.get('refs') else _mapping(full), full['n'], kind_of=_kind_chooser(full),
+                      extra_of=None if case['what'] != 'd' else _extra_of_r if full.get('refs') else _extra_of)
+    except rc.RefCellError as e:
+        from harness.core import HarnessError
+        raise HarnessError(f'deep case does not fit its cells: {case}: {e}')
+    res = _shallow(DEEP_CHECKS[case['what']](), full)
+    if res is not None:
+        return Fail('deep-tree/' + res.signature, f'{case}: {res.detail}'[:1500])
+    return None
+
+
+def enum_deep(tier):
+    # (gap, tail, n): free label kinds need n <= 490 (an hml_short label of n - 1 bits + extra + value must fit a cell)
+    narrow = lambda d: ((0, 'zeros', d + 1), (0, 'mixed', d + 1), (1, 'alternate', min(490, d + 60)), (2, 'mixed', min(490, d + 40)))
+    wide = lambda d: ((1, 'ones', 1023), (2, 'mixed', min(960, 2 * d)), (0, 'zeros', 1000))
+    sides = ('left', 'right', 'zigzag', 'random')
+    if tier == 'thorough':
+        grid = [(what, d, side, p) for what in ('b', 'b-wide', 'c', 'c-canonical-wide', 'd', 'd-refs', 'e-plain', 'e-aug')
+                for d in (300, 340, 360, 400, 420, 450) for side in sides for p in range(3 if 'wide' in what else 4)]
+    else:           # every clause at two depths at least, every side and label pattern; one or two cases per shard
+        grid = [('b', 340, 'left', 1), ('b', 450, 'zigzag', 3), ('b-wide', 400, 'random', 0), ('b-wide', 450, 'right', 1),
+                ('c', 340, 'right', 0), ('c', 400, 'random', 2), ('c', 450, 'left', 1), ('c-canonical-wide', 400, 'zigzag', 2),
+                ('c-canonical-wide', 450, 'random', 1), ('d', 340, 'zigzag', 3), ('d', 450, 'right', 0), ('d-refs', 400, 'left', 2),
+                ('e-plain', 340, 'random', 1), ('e-plain', 450, 'zigzag', 0), ('e-aug', 400, 'right', 3), ('e-aug', 450, 'left', 2)]
+    for i, (what, d, side, p) in enumerate(grid):
+        gap, tail, n = (wide if 'wide' in what else narrow)(d)[p]
+        case = {'what': what[0] if what[0] != 'e' else ('c' if what == 'e-plain' else 'd'), 'deep': d, 'n': n, 'side': side, 'gap': gap,
+                'tail': tail, 'seed': i}
+        if what == 'b' or what == 'b-wide':
+            case['kf'] = i % 2
+        elif 'wide' not in what:
+            case['kinds'] = [[1, 2, 3, 0], [2], [3, 1], [1], [0, 3]][i % 5]
+        if what == 'd-refs' or (what == 'e-aug' and i % 2):
+            case['refs'] = 1
+        if what[0] == 'e':
+            case['prune'] = [[25, 50][i % 2], i]
+        yield case
+
+
+def classify_deep(case):
+    yield 'clause=' + ('e' if 'prune' in case else case['what']) + ('/augmented' if case['what'] == 'd' else '')
+    yield 'forks-on-the-longest-path=%d' % case['deep']
+    yield 'spine=' + case['side']
+    yield 'labels-between-forks<=%d' % case['gap']
+    if case.get('kinds'):
+        yield 'free-label-kinds'
+    if case.get('refs'):
+        yield 'values-and-extras-carry-references'
+
+
 WIDTHS = [1, 2, 3, 4, 5, 8, 16, 32, 64, 256, 267, 267, 900]
 
 
@@ -679,6 +822,9 @@ SUBCHECKS = [
         n=(400, 15000), shards=(8, 32),
         note='x / y / key / value callbacks that parse another (augmented or plain) dictionary through each entry point; optional earlier '
              'walk aborted by a raising callback; value writer that serialises another map'),
+    Sub('g-deep-trees', check_deep, enum=enum_deep, classify=classify_deep, nontrivial=lambda c: True, shards=(8, 16), case_cpu_s=60.0,
+        note='(b)-(e) on dictionaries with a path of 340..450 forks (keys of 341..1023 bits), trees from the reference builder, the library entered '
+             'from a fresh thread (a shallow stack)'),
 ]
 
 # the same generated cases, several at a time, checked by threads that run at the same time (core.run_overlapping): per-call state
